@@ -93,6 +93,8 @@ pub enum Given {
     Z,
     /// explicit offset in seconds
     Offset(i64),
+    /// explicit offset with a fractional second (signed nanoseconds, not a whole number of seconds)
+    OffsetNs(i128),
 }
 
 #[derive(Serialize, Deserialize, Debug, Clone, Copy, PartialEq, Eq)]
@@ -136,8 +138,12 @@ pub fn expected(z: &Zone, wall: i128, given: Given, dis: Disamb, off: OffOpt, ma
     let r = match given {
         Given::Z => Ok(wall),
         Given::None => z.resolve(wall, dis),
-        Given::Offset(o) => {
-            let o_ns = o as i128 * S;
+        Given::Offset(_) | Given::OffsetNs(_) => {
+            let o_ns = match given {
+                Given::Offset(o) => o as i128 * S,
+                Given::OffsetNs(n) => n,
+                _ => unreachable!(),
+            };
             match off {
                 OffOpt::Use => Ok(wall - o_ns),
                 OffOpt::Ignore => z.resolve(wall, dis),
@@ -174,6 +180,8 @@ fn classify(z: &Zone, wall: i128) -> (&'static str, bool) {
         } else {
             ("in-gap", true)
         }
+    } else if c.len() > 2 {
+        ("in-overlap-3-candidates", true)
     } else if c.len() > 1 {
         ("in-overlap", true)
     } else {
@@ -266,7 +274,10 @@ impl SubCheck for Sub {
                     Route::Partial => "route:from_partial",
                     _ => "route:RelativeTo.from_str",
                 });
-                if let Given::Offset(_) = given {
+                if let Given::OffsetNs(_) = given {
+                    o = o.class("given:offset-with-fractional-second");
+                }
+                if let Given::Offset(_) | Given::OffsetNs(_) = given {
                     o = o.class(match off {
                         OffOpt::Use => "offset:use",
                         OffOpt::Prefer => "offset:prefer",
@@ -298,6 +309,12 @@ impl SubCheck for Sub {
                             Given::None => {}
                             Given::Z => s.push('Z'),
                             Given::Offset(sec) => s += &fmt::offset_seconds(sec),
+                            Given::OffsetNs(n) => {
+                                let a = n.abs();
+                                let (whole, frac) = (a / S, a % S);
+                                let f = format!("{frac:09}");
+                                s += &format!("{}{:02}:{:02}:{:02}.{}", if n < 0 { '-' } else { '+' }, whole / 3600, whole / 60 % 60, whole % 60, f.trim_end_matches('0'));
+                            }
                         }
                         s += &format!("[{}]", c.zone.ident());
                         if c.route == Route::Str {
@@ -318,6 +335,10 @@ impl SubCheck for Sub {
                             Given::Offset(sec) => Some(UtcOffset::from_str(&fmt::offset_minutes(sec / 60)).expect("offset")),
                             _ => None,
                         };
+                        if let Given::OffsetNs(_) = given {
+                            o.unjudged = true;
+                            return o.class("unjudged:partial-cannot-carry-fractional-offset");
+                        }
                         let p = PartialZonedDateTime::new().with_date(pd).with_time(pt).with_offset(offset).with_timezone(Some(tz.clone()));
                         ZonedDateTime::from_partial_with_provider(p, None, Some(conv_dis(dis)), Some(conv_off(off)), &prov).map(|z| z.epoch_nanoseconds().as_i128())
                     }
@@ -331,7 +352,7 @@ impl SubCheck for Sub {
                     (Ok(w), Ok(g)) => {
                         if g != w {
                             // narrow defect models are attached by signature
-                            let sig = if in_gap { "C13/convert/gap/mismatch" } else if cl == "in-overlap" { "C13/convert/overlap/mismatch" } else { "C13/convert/unique/mismatch" };
+                            let sig = if in_gap { "C13/convert/gap/mismatch" } else if cl.starts_with("in-overlap") { "C13/convert/overlap/mismatch" } else { "C13/convert/unique/mismatch" };
                             return o.fail(sig, format!("{w}"), format!("{g}"));
                         }
                     }
@@ -462,9 +483,22 @@ pub fn real_window(zi: usize, ti: usize) -> Option<(String, Zone, usize)> {
     Some((z.name.clone(), window, i - lo))
 }
 
+/// two backward changes so close together that their repeated stretches intersect: a wall-clock time there has
+/// three matching instants ("the later match" is the last one, not the second). No skipped times in such a zone.
+pub fn double_fallback_zone() -> BoxedStrategy<Zone> {
+    (-43_200i64..=43_200, proptest::sample::select(vec![1800i64, 3600, 7200]), proptest::sample::select(vec![1800i64, 3600, 5400]), 1i64..=59, -4_000_000_000i64..=4_000_000_000)
+        .prop_map(|(o, s1, s2, frac, t0)| {
+            let o = o / 900 * 900;
+            let d = (s1.min(s2) * frac / 60).max(60);
+            Zone { name: "Test/DoubleFallback".into(), initial: o, trans: vec![(t0, o - s1), (t0 + d, o - s1 - s2)] }
+        })
+        .boxed()
+}
+
 fn zone_kind() -> BoxedStrategy<ZoneKind> {
     let shaped = shaped_zones();
     prop_oneof![
+        1 => double_fallback_zone().prop_map(ZoneKind::Table),
         2 => (-1439i32..=1439).prop_map(ZoneKind::Fixed),
         1 => proptest::sample::select(vec![0i32, 60, -60, 330, 345, -210, 840, -720, 1439, -1439]).prop_map(ZoneKind::Fixed),
         6 => syn_zone().prop_map(ZoneKind::Table),
@@ -480,7 +514,7 @@ fn zone_kind() -> BoxedStrategy<ZoneKind> {
 }
 
 pub fn case() -> BoxedStrategy<Case> {
-    (zone_kind(), 0usize..64, 0u8..8, -172_800i128..=172_800, 0i128..1_000_000_000, 0u8..8, 0u8..4, 0u8..4, 0u8..8, crate::gen::instant_ns())
+    (zone_kind(), 0usize..64, 0u8..8, -172_800i128..=172_800, 0i128..1_000_000_000, 0u8..8, 0u8..4, 0u8..4, 0u8..10, crate::gen::instant_ns())
         .prop_map(|(zone, ti, place, dsec, dns, route, dis, off, gk, uniform)| {
             let z = zone.zone();
             let reverse = route >= 6;
@@ -543,6 +577,13 @@ pub fn case() -> BoxedStrategy<Case> {
                     4 => Given::Offset(minute(o0)),
                     5 => Given::Offset(minute(o1) + 60),
                     6 => Given::Offset((o0 + 3600).clamp(-86340, 86340)),
+                    8 | 9 if route != Route::Partial => {
+                        // the right (or the other candidate's) offset plus / minus a fraction of a second
+                        let base = if gk == 8 { o0 } else { o1 } as i128 * S;
+                        let frac = [1, 500_000_000, 999_999_999, dns.max(1)][(ti % 4) as usize];
+                        let n = if base < 0 || base == 0 && place % 2 == 0 { base - frac } else { base + frac };
+                        if n.abs() < 86_400 * S && n % S != 0 { Given::OffsetNs(n) } else { Given::Offset(o0) }
+                    }
                     _ => {
                         if route != Route::Partial {
                             Given::Z
@@ -559,6 +600,10 @@ pub fn case() -> BoxedStrategy<Case> {
                 Given::Offset(s) => Given::Offset(s.clamp(-86399, 86399)),
                 g => g,
             };
+            let given = match (route, given) {
+                (Route::Partial, Given::OffsetNs(_)) => Given::None,
+                (_, g) => g,
+            };
             // the partial route carries whole minutes only
             let given = match (route, given) {
                 (Route::Partial, Given::Offset(s)) => Given::Offset(s / 60 * 60),
@@ -570,10 +615,10 @@ pub fn case() -> BoxedStrategy<Case> {
 }
 
 pub fn run(ctx: &mut Ctx) {
-    ctx.rule = "zones: every kind of fixed offset (TimeZone::UtcOffset), synthetic rule tables (1-12 transitions >= 3 days apart anywhere in +-1e11 s, offsets within +-15 h incl. non-zero seconds, shifts from 1 minute to 26 h in both directions) and hand-written tables shaped like New York / Lord Howe / Apia (24 h skip) / Dublin (negative DST) / Kolkata (LMT seconds) / Kiritimati, served through the harness TimeZoneProvider; plus windows (anchor transition +-3 neighbours) of every real IANA zone's listed TZif transitions (harness reader), half of them served by the harness provider, half resolved end to end by the crate's bundled provider. points: within +-2 days of a transition (at the edges +-1 ns, inside gaps and overlaps) or uniform. routes: ZonedDateTime getters of an instant; PlainDateTime/PlainDate.toZonedDateTime; from_str and from_partial with an explicit offset (correct, rounded to the minute, the other candidate's, wrong) or Z x 4 disambiguations x 4 offset options. oracle: brute force over the rule table + Temporal's disambiguation/offset rules. non-trivial = wall time inside a gap or overlap, explicit offset or Z present, shift > 3 h, offset with non-zero minutes/seconds.".into();
+    ctx.rule = "zones: every kind of fixed offset (TimeZone::UtcOffset), synthetic rule tables (1-12 transitions >= 3 days apart anywhere in +-1e11 s, offsets within +-15 h incl. non-zero seconds, shifts from 1 minute to 26 h in both directions) and hand-written tables shaped like New York / Lord Howe / Apia (24 h skip) / Dublin (negative DST) / Kolkata (LMT seconds) / Kiritimati, served through the harness TimeZoneProvider; plus windows (anchor transition +-3 neighbours) of every real IANA zone's listed TZif transitions (harness reader), half of them served by the harness provider, half resolved end to end by the crate's bundled provider. points: within +-2 days of a transition (at the edges +-1 ns, inside gaps and overlaps) or uniform. routes: ZonedDateTime getters of an instant; PlainDateTime/PlainDate.toZonedDateTime; from_str and from_partial with an explicit offset (correct, rounded to the minute, the other candidate's, wrong, or - strings only - with a fractional second, both signs) or Z x 4 disambiguations x 4 offset options. oracle: brute force over the rule table + Temporal's disambiguation/offset rules. non-trivial = wall time inside a gap or overlap, explicit offset or Z present, shift > 3 h, offset with non-zero minutes/seconds.".into();
     ctx.assumptions = vec![
         "provider contract: candidates ascending; transition_epoch = second at which the offset in force began (tzp.rs)".into(),
-        "rule sets whose gaps/overlaps interact (transitions closer than 3 days) are excluded by construction".into(),
+        "rule sets whose gaps interact with another transition (transitions closer than 3 days) are excluded by construction; the one exception is the double-fallback class (two backward changes whose repeated stretches intersect: three candidates, no skipped time)".into(),
     ];
     ctx.run_prop(&Sub, &case, ctx.tier.pick(600_000, 20_000_000));
 }
